@@ -564,7 +564,7 @@ impl Debugger {
                             continue;
                         }
                     } else {
-                        self.remove_watchpoint_by_addr(wp.address)?;
+                        clear!();
                         return Ok(AsyncStepResult::wp_interrupt_quite(pid, current_pc, ty));
                     }
                 }
